@@ -34,6 +34,25 @@ def load_variants(prop: str) -> List[dict]:
         v.setdefault('expect', 'fire')
         v['prop'] = prop
         out.append(v)
+    out += load_seeded(prop)
+    return out
+
+
+def load_seeded(prop: str) -> List[dict]:
+    """changes made by independent sub-agents (seeded/<id>/patch.diff); seeded/EXPECTED.json says which of them the property's
+    own check is expected to catch (`fire`, with the rule) and which are recorded misses (`miss`: reported, never a failure)"""
+    import json
+    base = os.path.join(os.path.dirname(os.path.dirname(os.path.abspath(__file__))), 'seeded')
+    exp_p = os.path.join(base, 'EXPECTED.json')
+    if not os.path.exists(exp_p):
+        return []
+    with open(exp_p) as fh:
+        exp = json.load(fh)
+    out = []
+    for sid, e in sorted(exp.items()):
+        if e.get('check', sid.split('-')[0]) != prop:
+            continue
+        out.append(dict(id='seeded-' + sid, prop=prop, patch=os.path.join(base, sid, 'patch.diff'), expect=e['expect'], rule=e.get('rule')))
     return out
 
 
@@ -42,7 +61,7 @@ def _run_one(args):
     from .check import run_property
     from .model import AnalysisError
     vid = v['id']
-    edits = v.get('edits') or [(v['file'], v['old'], v['new'])]
+    edits = v.get('edits') or ([(v['file'], v['old'], v['new'])] if 'file' in v else [])
     d = tempfile.mkdtemp(prefix='var-', dir=scratch_base)
     try:
         dst = os.path.join(d, 'src', 'rsatoolbox')
@@ -61,6 +80,11 @@ def _run_one(args):
                     compile(s.replace(old, new), p, 'exec')
                 except SyntaxError as e:
                     return vid, 'broken-variant', f'variant does not compile: {e}'
+        if v.get('patch'):
+            import subprocess
+            pr = subprocess.run(['git', 'apply', '--include=src/rsatoolbox/*', v['patch']], cwd=d, capture_output=True, text=True)
+            if pr.returncode != 0:
+                return vid, 'stale', 'patch does not apply: ' + pr.stderr.strip()[:200]
         evd = os.path.join(d, 'evidence')
         try:
             obs, known_hits, new_viol, wall = run_property(v['prop'], d, 'quick', 0, evidence_dir=evd)
@@ -68,6 +92,8 @@ def _run_one(args):
             return vid, 'analysis-error', str(e)
         fired = bool(new_viol)
         rules = sorted({o.rule for o in new_viol})
+        if v['expect'] == 'miss':
+            return vid, 'ok', ('recorded miss now caught: ' + str(rules)) if fired else 'recorded miss (outside what this check decides)'
         if v['expect'] == 'fire':
             if not fired:
                 return vid, 'MISSED', 'no violation reported'
